@@ -17,6 +17,7 @@ EXPLANATION = ("The three site factories (caltech_acn, jpl_acn, office001_acn) a
                "bounds the power through each transformer by its capacity for every feasible schedule and every capacity value. The "
                "`voltage` argument is evaluated as a tainted number: no constraint limit may be computed from it (ratings are at nominal "
                "voltages); a dependent limit is re-evaluated at half and twice the default voltage and reported with the violating value.")
+EXPLANATION += " Added in rounds 4-5: `+=` on a Current is evaluated with pandas' in-place semantics (left operand's index kept, aliases updated), distinct from `x = x + y`; module constants, helpers of sibling site modules, namedtuples, lambdas and *args are interpreted; C12's algebra rule runs here because the tables are built with it; station-order round trip."
 NOT_DECIDED = ("that ChargingNetwork.is_feasible evaluates the phasor sums correctly (C06) and that Current implements the algebra the "
                "evaluator assumes (C12); the 360*tolerance slack the feasibility check itself grants")
 
